@@ -128,7 +128,13 @@ class Float(DecisionPoint):
       previous_dna: Optional[DNA]) -> DNA:
     """Returns a random DNA based on current spec."""
     del previous_dna
-    return DNA(value=random_generator.uniform(self.min_value, self.max_value))
+    lo, hi = self.min_value, self.max_value
+    value = random_generator.uniform(lo, hi)
+    if not lo <= value <= hi:
+      # NOTE: `uniform` computes `lo + (hi - lo) * random()`, which is inf or
+      # nan when the width of the range is not a finite float.
+      value = min(max(2 * random_generator.uniform(lo / 2, hi / 2), lo), hi)
+    return DNA(value=value)
 
   def __len__(self) -> int:
     """Returns number of decision points in current space."""
